@@ -1,8 +1,29 @@
 /-
   Lungo.Proofs.ConcLogAll — assembly: Linv, Rinv, Pinv, Hinv hold in every reachable state.
 -/
+import Lungo.Proofs.ConcAll
 import Lungo.Proofs.ConcLog2
+import Lungo.Proofs.ConcNamed
 namespace Lungo.Conc
+
+theorem linv_step {s s' : State} {a : ActorId} {c : Choice} (h1 : Inv1 s) (h2 : Inv2 s) (g : Linv s)
+    (hs : step s a c = some s') : Linv s' := by
+  have bd := h2.bnd
+  rcases step_cases hs with ⟨hp, h'⟩ | h' | h' | h' | ⟨hp, h'⟩ | h' | h' | h' | h'
+  · exact linv_idle h1 bd g hp h'
+  · exact linv_begin h1 bd g h'
+  · exact linv_commit h1 bd g h'
+  · exact linv_abort h1 bd g h'
+  · exact linv_after h1 bd g hp h'
+  · exact linv_use h1 bd g h'
+  · exact linv_sess h1 bd g h'
+  · exact linv_close h1 bd g h'
+  · exact linv_exp h1 bd g h'
+
+theorem linv_reachable {n : Nat} {s : State} (h : Reachable n s) : Linv s := by
+  induction h with
+  | init => exact linv_init n
+  | step hr hs ih => exact linv_step (inv_reachable hr).1 (inv_reachable hr).2 ih hs
 
 structure Inv3 (s : State) : Prop where
   linv : Linv s
@@ -116,6 +137,24 @@ theorem logOf_take_lt {cl : List CRec} {i j : Nat} {r : CRec} (hi : cl[i]? = som
 
 theorem logOf_take_drop (cl : List CRec) (j : Nat) : logOf (cl.take j) ++ logOf (cl.drop j) = logOf cl := by
   simp only [logOf, ← List.flatten_append, ← List.map_append, List.take_append_drop]
+
+
+theorem ninv_reachable {n : Nat} {s : State} (h : Reachable n s) : Ninv s := by
+  induction h with
+  | init => exact ninv_init n
+  | step hr hs ih =>
+    have bd := (inv_reachable hr).2.bnd
+    have lv := linv_reachable hr
+    rcases step_cases hs with ⟨hp, h'⟩ | h' | h' | h' | ⟨hp, h'⟩ | h' | h' | h' | h'
+    · exact ninv_idle bd lv ih hp h'
+    · exact ninv_begin bd lv ih h'
+    · exact ninv_commit bd lv ih h'
+    · exact ninv_abort bd lv ih h'
+    · exact ninv_after bd lv ih hp h'
+    · exact ninv_use bd lv ih h'
+    · exact ninv_sess bd lv ih h'
+    · exact ninv_close bd lv ih h'
+    · exact ninv_exp bd lv ih h'
 
 
 end Lungo.Conc
